@@ -308,7 +308,11 @@ impl Module for M {
          2..=5 (C19: width 1; thorough 2,3,5,7), a seeded sample of 4/5-vertex ones (arbitrary, closed-looking, self-overlapping, \
          repeated middle vertex), known skeleton-segment shapes continued by every lattice point in both directions, ALL triangles \
          on a 4x4 lattice x widths 1..=4 x 3 alignments x rotating fill/stroke colour options (thorough 5x5 x widths 0,1,2,3,5), \
-         seeded random polylines / triangles within +-60; offsets rotate through 7 axis-crossing values (C07: non-zero ones). \
+         seeded random polylines / triangles within +-60; offsets rotate through 7 axis-crossing values (C07: non-zero ones); \
+         then the display-scale / wide-stroke slice: widths 13,20,33,34,40,64,100,128 (C19: width 1) on fixed small shapes x all \
+         alignments and on seeded random polylines (2..=6 vertices) / triangles (alignments rotating) with vertices within +-100, \
+         +-300, +-1024 or a 150 px shape placed anywhere within +-1024 (quick 24 + 48 fixed and 42 + 42 random ops, thorough 346 + 345 random), half of the offsets \
+         moving the shape onto the origin (counters polyline:wide:*, triangle:wide:*, *:display-scale:*). \
          The counters polyline:join:*, triangle:join:*, polyline:skeleton-segments, triangle:collapsed-inside report the join kinds \
          exercised (computed by a port of the private join code and compared with the Lean model's classification in the result line). \
          Non-trivial: at least one pixel drawn (C07: and a non-zero offset)."
@@ -635,6 +639,105 @@ fn generate_joins(pid: &str, tier: Tier, rng: &mut Rng, emit: &mut dyn FnMut(Str
         let tr = (rng.range(-80, 80) as i32, rng.range(-80, 80) as i32);
         emit(poly_op(tr, &vs, w));
     }
+    generate_wide_joins(pid, tier, rng, emit);
+}
+
+/// Stroke widths of the display-scale / wide-stroke slice: above the widths of the lattice and random
+/// slices (<= 9 polylines, <= 12 triangles), both sides of the first width at which the C17 finding
+/// shows (34), up to the largest width of the display-scale theorems (128).
+const WIDE_W: [u32; 8] = [13, 20, 33, 34, 40, 64, 100, 128];
+
+/// (class, number of polylines, number of triangles) of the seeded part of the slice. Classes:
+///   near  vertices within +-100
+///   far   a shape of extent <= 150 placed anywhere within +-1024 (large absolute coordinates in the join
+///         arithmetic at the cost of a small picture)
+///   mid   vertices within +-300
+///   span  vertices anywhere within +-1024 (pictures of up to 2048 x 2048: the Lean model walks every outline
+///         line once per row, 1.4 - 1.9 s per op; near 60 - 70 ms, far ~100 ms, mid 150 - 300 ms)
+fn wide_classes(tier: Tier) -> [(&'static str, usize, usize); 4] {
+    if tier == Tier::Quick {
+        [("near", 20, 20), ("far", 16, 16), ("mid", 5, 5), ("span", 1, 1)]
+    } else {
+        [("near", 150, 150), ("far", 150, 150), ("mid", 40, 40), ("span", 6, 5)]
+    }
+}
+
+/// The display-scale / wide-stroke slice of the joins streams (C02, C07: widths `WIDE_W`, coordinates up to
+/// +-1024, 2..=6 vertices, all alignments, offsets that move the shape across the axes; C19: width 1 at the
+/// same coordinates). The domain of the display-scale theorems (Props/C07/JoinsDisplayScale.lean,
+/// Props/C02/JoinsBBox.lean: vertices within +-1024, widths <= 128) is tied to the real code here.
+fn generate_wide_joins(pid: &str, tier: Tier, rng: &mut Rng, emit: &mut dyn FnMut(String)) {
+    let c19 = pid == "C19";
+    let mut k = 0usize;
+    let mut width = |rng: &mut Rng| -> u32 {
+        if c19 {
+            1
+        } else {
+            *rng.pick(&WIDE_W)
+        }
+    };
+    // fixed small shapes x every width (x every alignment): a single segment, a sharp (bevel / degenerate)
+    // join, a polyline going back over itself; an ordinary and a thin triangle
+    if !c19 {
+        for &w in &WIDE_W {
+            for vs in [vec![(-20, -10), (30, 15)], vec![(-30, 5), (10, -25), (40, 20)], vec![(-25, 0), (25, 3), (-20, 6), (30, -9)]] {
+                k += 1;
+                emit(poly_op(offset_for(pid, k), &vs, w));
+            }
+            for v in [[(-30, -20), (40, -5), (5, 35)], [(-40, 0), (40, 6), (0, -3)]] {
+                for align in 0..3u32 {
+                    k += 1;
+                    let (fill, stroke) = TRI_STYLES[k % 3];
+                    emit(tri_op(offset_for(pid, k), &v, w, align, fill, stroke));
+                }
+            }
+        }
+    }
+    // an offset: half of them move the shape (its first vertex `a`) onto the origin, across both axes
+    let offset = |rng: &mut Rng, a: (i32, i32)| -> (i32, i32) {
+        let d = if rng.chance(1, 2) {
+            (-a.0 + rng.range(-40, 40) as i32, -a.1 + rng.range(-40, 40) as i32)
+        } else {
+            (rng.range(-300, 300) as i32, rng.range(-300, 300) as i32)
+        };
+        if d == (0, 0) {
+            (1, -1)
+        } else {
+            d
+        }
+    };
+    let vertices = |rng: &mut Rng, class: &str, n: usize| -> Vec<(i32, i32)> {
+        let (c, r): ((i64, i64), i64) = match class {
+            "near" => ((0, 0), 100),
+            "mid" => ((0, 0), 300),
+            "span" => ((0, 0), 1024),
+            _ => ((rng.range(-949, 949), rng.range(-949, 949)), 75),
+        };
+        (0..n).map(|_| ((c.0 + rng.range(-r, r)) as i32, (c.1 + rng.range(-r, r)) as i32)).collect()
+    };
+    for (class, npoly, ntri) in wide_classes(tier) {
+        for _ in 0..npoly {
+            let n = rng.range(2, 6) as usize;
+            let mut vs = vertices(rng, class, n);
+            match rng.below(6) {
+                0 if n >= 3 => vs[n - 1] = vs[0],     // closed-looking
+                1 if n >= 3 => vs[2] = vs[0],         // back over the first segment
+                2 if n >= 3 => vs[1] = vs[0],         // repeated vertex
+                _ => {}
+            }
+            let w = width(rng);
+            let tr = offset(rng, vs[0]);
+            emit(poly_op(tr, &vs, w));
+        }
+        for i in 0..ntri {
+            let vs = vertices(rng, class, 3);
+            let v = [vs[0], vs[1], vs[2]];
+            let w = width(rng);
+            let (fill, stroke) = if c19 { TRI_STYLES[i % 2] } else { *rng.pick(&TRI_STYLES) };
+            let d = offset(rng, v[0]);
+            emit(tri_op(d, &v, w, (i % 3) as u32, fill, stroke));
+        }
+    }
 }
 
 fn fmt_draw_log(log: &[Call]) -> String {
@@ -687,6 +790,14 @@ fn exec_polyline(t: &mut Toks, op: &str, ctx: &mut Ctx) -> String {
     let px: Vec<Point> = styled.pixels().map(|Pixel(p, _)| p).collect();
     ctx.count(&format!("polyline:n={}", n.min(6)));
     ctx.count(&format!("polyline:w={}", w.min(10)));
+    if w >= 13 {
+        ctx.count(&format!("polyline:wide:w={}", w));
+    }
+    if let Some(c) = vs.iter().map(|v| v.x.abs().max(v.y.abs())).max() {
+        if c > 100 {
+            ctx.count(if c > 300 { "polyline:display-scale:|coord|>300" } else { "polyline:display-scale:|coord|>100" });
+        }
+    }
     if !r2.rec.map.is_empty() && (ctx.pid != "C07" || tr != Point::zero()) {
         ctx.nontrivial(op);
     }
@@ -1202,6 +1313,15 @@ fn exec_triangle(t: &mut Toks, op: &str, ctx: &mut Ctx) -> String {
     let m = &r2.rec.map;
     let area2 = (v[1].x - v[0].x) as i64 * (v[2].y - v[0].y) as i64 - (v[1].y - v[0].y) as i64 * (v[2].x - v[0].x) as i64;
     ctx.count(&format!("triangle:w={}", w.min(12)));
+    if w >= 13 {
+        ctx.count(&format!("triangle:wide:w={}:align={}", w, align));
+    }
+    {
+        let c = v.iter().map(|p| p.x.abs().max(p.y.abs())).max().unwrap();
+        if c > 100 {
+            ctx.count(if c > 300 { "triangle:display-scale:|coord|>300" } else { "triangle:display-scale:|coord|>100" });
+        }
+    }
     ctx.count(&format!("triangle:align={}", align));
     ctx.count(match (fill.is_some(), stroke.is_some()) {
         (true, true) => "triangle:fill+stroke",
